@@ -5,6 +5,30 @@ or a type-checked structural rewrite.
 Every instance is recorded in the woven file (original text base64 in the marker) and
 listed in the evidence."""
 SHIMS = {
+    # define_charset(): lazy_static MAPS table and string compares called out
+    'maps-has': dict(pattern=r'MAPS\.keys\(\)\.any\(\|&a\| a == code\)', replace=r'maps_has(code)', spec='r == maps_lookup(code@).is_some()'),
+    'maps-get': dict(pattern=r'MAPS\s*\.get\(code\)\s*\.expect\(&format!\("[^"]*", code\)\)\s*\.clone\(\)', replace=r'maps_get(code)', spec='requires the key to exist (keeps the expect as an obligation); r == maps_lookup(code@).unwrap()'),
+    'mode-eq': dict(pattern=r'\bmode == ("[^"]*")', replace=r'strs_eq(mode, \1)', spec='r == (a@ == b@)'),
+    # ---- unit F: the recogniser closure (all patterns are matched on comment/string-masked text) ----
+    'f-yield-decaln': dict(pattern=r'co\.yield_\(None\)\.unwrap_or_default\(\) == DECALN', replace=r'str_eq(&co_next(&mut co, None, &listener, &parser_state_cloned), DECALN)', spec='co_next + str_eq'),
+    'f-yield-pushstr': dict(pattern=r'accu\.push_str\(&co\.yield_\(None\)\.unwrap_or_default\(\)\);', replace=r'string_push_str(&mut accu, &co_next(&mut co, None, &listener, &parser_state_cloned));', spec='co_next + String::push_str'),
+    'f-yield': dict(pattern=r'(?<!push_str\(&)co\.yield_\((Some\(true\)|None)\)\.unwrap_or_default\(\)(?! == DECALN)', replace=r'co_next(&mut co, \1, &listener, &parser_state_cloned)', spec='the trace-invariant yield, see prelude_fsm.rs'),
+    'f-yield-bare': dict(pattern=r'co\.yield_\(None\);', replace=r'co_next(&mut co, None, &listener, &parser_state_cloned);', spec='yield whose value is discarded'),
+    'f-esc-eq': dict(pattern=r'\bESC == char\b', replace=r'str_eq(&char, ESC)', spec='r == (a@ == b@)'),
+    'f-str-eq': dict(pattern=r'\b(char|code|accu) == ("[^"]*"|[A-Z][A-Z0-9_]*)', replace=r'str_eq(&\1, \2)', spec='r == (a@ == b@)'),
+    'f-listener': dict(pattern=r'listener\.lock\(\)\.unwrap\(\)\.', replace=r'listener.', spec='Arc<Mutex<T>> used single-threaded: lock().unwrap() is the listener itself (poisoning only after a panic)'),
+    'f-utf8': dict(pattern=r'parser_state_cloned\.lock\(\)\.unwrap\(\)\.use_utf8', replace=r'parser_state_cloned.use_utf8', spec='shared flag, ASSUMED constant during a trace'),
+    'f-lit-contains': dict(pattern=r'("[^"]*")\.contains\(&(char|code)\)', replace=r'lit_contains(\1, &\2)', spec='r == lit@.contains(s@[0])'),
+    'f-arr-any': dict(pattern=r'\b(BASIC|ALLOWED_IN_CSI)\.iter\(\)\.any\(\|cf\| \*cf == char\)', replace=r'strs_any_eq(\1, &char)', spec='membership in a table of strings'),
+    'f-osc-term': dict(pattern=r'OSC_TERMINATORS\.contains\(&accu\.as_str\(\)\)', replace=r'strs_any_eq(OSC_TERMINATORS, &accu)', spec='membership in a table of strings'),
+    'f-first-digit': dict(pattern=r'char\.chars\(\)\.next\(\)\.unwrap\(\)\.is_ascii_digit\(\)', replace=r'first_is_digit(&char)', spec='r == is_digit(s@[0])'),
+    'f-push-first': dict(pattern=r'current\.push\(char\.chars\(\)\.next\(\)\.unwrap\(\)\);', replace=r'string_push(&mut current, first_char(&char));', spec="current' == current.push(char@[0])"),
+    'f-parse': dict(pattern=r'current\.parse::<u64>\(\)', replace=r'parse_u64(&current)', spec='Ok(v) iff non-empty digits with value < 2^64'),
+    'f-is-empty': dict(pattern=r'current\.is_empty\(\)', replace=r'string_is_empty(&current)', spec='r == (len == 0)'),
+    'f-slice': dict(pattern=r'&params\[\.\.\]', replace=r'vec_as_slice(&params)', spec='r@ == v@'),
+    'f-skip1': dict(pattern=r'param\.chars\(\)\.skip\(1\)\.collect\(\)', replace=r'string_skip1(&param)', spec='drop the first character'),
+    'f-pushstr': dict(pattern=r'param\.push_str\(&accu\);', replace=r'string_push_str(&mut param, &accu);', spec="param' == param + accu"),
+    'f-println': dict(pattern=r'println!\("[^"]*"\);', replace=r'{ /* println! dropped */ }', spec='diagnostic output only'),
     'char-to-string-d': dict(pattern=r'(?<!&)\bchar\.to_string\(\)', replace=r'char_to_string(char)', spec='r@ == [c]'),
     'empty-to-string': dict(pattern=r'""\.to_string\(\)', replace=r'str_to_string("")', spec='r@ == s@'),
     # ByteParser::feed
